@@ -68,6 +68,7 @@ else:
 
 SECTION_TAG = "@section"
 MAX_PAGES_RANGE = 1000  # <pages from=.. to=..> transcludes at most this many pages
+MAX_PARSE_DEPTH = 40  # nested parse_txt calls made by tag extensions (<ref>, <poem>, <gallery>, ...)
 
 
 def get_recursive_tag_parser(tagname, blocknode=False):
@@ -1287,6 +1288,18 @@ def parse_txt(txt, xopts=None, **kwargs):
 
     if not txt:
         return []
+    depth = xopts.parse_depth or 0
+    if depth >= MAX_PARSE_DEPTH:
+        # e.g. a template that contains <ref>{{itself}}</ref>: stop re-parsing, keep the text
+        return [Token(type=Token.t_text, text=uniquifier.replace_uniq(txt))]
+    xopts.parse_depth = depth + 1
+    try:
+        return _parse_tokens(txt, xopts, uniquifier)
+    finally:
+        xopts.parse_depth = depth
+
+
+def _parse_tokens(txt, xopts, uniquifier):
     tokens = tokenize(txt, uniquifier=uniquifier)
 
     td2 = TagParser()
